@@ -1012,6 +1012,9 @@ def _instrument_membership_mutator(method, before, argument, after):
         if not after or not executor:
             return method(*args, **kw)
         else:
+            # the original of the collection is recorded before the method
+            # mutates it (the remove event below runs afterwards)
+            executor.fire_pre_remove_event(initiator)
             res = method(*args, **kw)
             if res is not None:
                 getattr(executor, after)(res, initiator)
